@@ -354,4 +354,87 @@ theorem pend_flush (P : Prog) (L : List Nat) (c d : Cfg) (h : Pend L c d) (hD : 
   rw [t2] at hD
   exact ⟨h.held, firstStep d, fuel0, Nat.le_refl _, hD, t1, h.mid⟩
 
+/-! ### entering `Pend`: the tick after whose first step the pause takes effect at a CREATED / RUNNING boundary -/
+
+theorem firstStep_inv (c : Cfg) (h : Inv c) : Inv (firstStep c) := by
+  unfold firstStep
+  split
+  · exact finishUser_inv _ _ h
+  · split
+    · exact wake_inv _ _ _ _ h
+    · exact h
+  · exact h
+
+/-- the first steps of the two runs, started in step with each other -/
+theorem firstStep_mid (c d : Cfg) (h : InStep c d) (hok : okFirst c = true) :
+    Mid (firstStep c) (firstStep d) ∧ okFirst d = true ∧
+      (isCR (firstStep c).st = true → ResumeNoop d ∧ terminal c.st.label = false) := by
+  have hpcr := h.pc
+  unfold okFirst at hok
+  split at hok
+  · rename_i hpc
+    rw [hpc] at hpcr
+    have hpd : d.pc = .notStarted := hpcr
+    obtain ⟨hs, hi⟩ := h.idle (by rw [hpc]; rfl)
+    have e1 : firstStep c = c := by unfold firstStep; rw [hpc]
+    have e2 : firstStep d = d := by unfold firstStep; rw [hpd]
+    rw [e1, e2]
+    refine ⟨⟨h.core, hi, hs, (by intro e he; rw [hpc] at he; cases he), (by intro e he; rw [hpd] at he; cases he)⟩,
+      by unfold okFirst; rw [hpd], ?_⟩
+    intro hcr
+    have hnw := isCR_notWaiting hcr
+    have := h.core.st.eq_of_notWaiting hnw
+    exact ⟨Or.inl (this ▸ hnw), isCR_live hcr⟩
+  · rename_i b hpc
+    rw [hpc] at hpcr
+    obtain ⟨hpd, fn, args, kw, hst⟩ := hpcr
+    have e1 : firstStep c = finishUser c b.out := by unfold firstStep; rw [hpc]
+    have e2 : firstStep d = finishUser d b.out := by unfold firstStep; rw [hpd]
+    rw [e1, e2]
+    have he := finishUser_core c d b.out h.core h.intOk
+    refine ⟨mid_of_end he (by intro e he; rw [hpc] at he; cases he) (by intro e he; rw [hpd] at he; cases he),
+      by unfold okFirst; rw [hpd]; exact hok, ?_⟩
+    intro _
+    have hnw : NotWaiting c.st := by rw [hst]; intro a b c d h; cases h
+    have := h.core.st.eq_of_notWaiting hnw
+    exact ⟨Or.inl (this ▸ hnw), by rw [hst]; rfl⟩
+  · rename_i wf hpc
+    rw [hpc] at hpcr
+    obtain ⟨fn, wk, aw, wf', hst, hst', hpd⟩ := hpcr
+    obtain ⟨wf2, w, hwk, hst2, hw, hw', hni⟩ := h.core.st.waiting_inv hst
+    rw [hst'] at hst2; cases hst2
+    rw [hst, hw] at hok
+    cases w with
+    | result v =>
+      have e1 : firstStep c = wake c fn wf (.result v) := by unfold firstStep; rw [hpc]; dsimp only; rw [hst, hw]
+      have e2 : firstStep d = wake d fn wf' (.result v) := by unfold firstStep; rw [hpd]; dsimp only; rw [hst', hw']
+      rw [e1, e2]
+      have he := wake_core c d fn wf wf' (.result v) h.core h.intOk hni (by intro x; cases x)
+      refine ⟨mid_of_end he (by intro e he; rw [hpc] at he; cases he) (by intro e he; rw [hpd] at he; cases he),
+        by unfold okFirst; rw [hpd]; dsimp only; rw [hst', hw']; simp, ?_⟩
+      intro _
+      exact ⟨Or.inr ⟨fn, wf', none, aw, v, hst', hw'⟩, by rw [hst]; rfl⟩
+    | _ => cases hok
+  · cases hok
+
+/-- **entering `Pend`**: the run with pauses and the reference run are in step, and the first step of the next tick ends, in
+the run with pauses, with the pause taking effect at a step boundary in CREATED or RUNNING.  The run with pauses performs
+the tick; the reference run does not (yet). -/
+theorem pend_intro (P : Prog) (c d : Cfg) (h : InStep c d) (hI : Inv c) (hok : okFirst c = true)
+    (hh : heldB (firstStep c) = true) (hcr : isCR (firstStep c).st = true) : Pend c.efCb (tickStepper P c) d := by
+  obtain ⟨hm, hokd, hrest⟩ := firstStep_mid c d h hok
+  obtain ⟨hrn, hlive⟩ := hrest hcr
+  obtain ⟨pf, hp, hf⟩ := (heldB_iff _).mp hh
+  have hl1 := isCR_live hcr
+  have hc1 : (firstStep c).closed = false := not_closed_of_live (firstStep_inv c hI) hl1
+  have ht : tickStepper P c = { firstStep c with pc := .awaitPaused pf } := by
+    rw [(tick_first P c hok).1]
+    exact loopHead_held P 999 (firstStep c) hm.ncc hl1 hc1 pf hp hf
+  obtain ⟨g1, g2, g3, g4, g5, g6, g7, g8, g9, g10, g11, g12, g13, g14, g15⟩ := sh_fields h.core.sh
+  rw [ht]
+  refine ⟨rfl, hcr, hokd, ⟨⟨hm.core.sh, hm.core.st, hm.core.ckill, hm.core.dint, hm.core.dpaused⟩, hm.int, hm.stepping,
+    (by intro x hx; cases hx), hm.ncd⟩, h.core.dint, by rw [← h.core.label]; exact hlive, ?_, ?_, hrn⟩
+  · rw [← g4]; exact not_closed_of_live hI hlive
+  · intro f hf; rw [g7]; exact hf
+
 end PMF
